@@ -18,7 +18,7 @@ use std::collections::{BTreeMap, HashMap};
 pub struct Entropy;
 pub static ENTROPY: Entropy = Entropy;
 
-pub const ENTRY_POINTS: [(&str, Op); 12] = [
+pub const ENTRY_POINTS: [(&str, Op); 13] = [
     ("SecretKey::new", Op::KeyNew),
     ("BlsSignature::new_secret_key", Op::KeyNewViaBls),
     ("SecretKeyEnum::new", Op::EnumNew),
@@ -31,6 +31,9 @@ pub const ENTRY_POINTS: [(&str, Op); 12] = [
     ("ProofOfKnowledgeTimestamp::generate", Op::PokTsGenerate),
     ("ProofCommitmentChallenge::new", Op::ChallengeNew),
     ("BlsSignature::new_proof_challenge", Op::ChallengeNewViaBls),
+    // the trait-level route with the CALLER's blinder (one value sealed for several recipients under a shared c1): c1 and c2
+    // are then the caller's choice, the proof's own nonce is still the library's to draw
+    ("BlsElGamal::seal_scalar_with_proof(caller's blinder)", Op::EgEncryptProofBlinder),
 ];
 const MODES: [&str; 5] = ["sequence", "threads", "incarnations", "seeds", "mixed"];
 
@@ -60,6 +63,10 @@ pub fn call_once(rec: &mut Rec, lib: &dyn Lib, g: Grp, op: Op, fx: &Fixture) -> 
         Op::SignCrypt => rec.call(lib, g, op, &[&fx.pk, &sc, &fx.msg]),
         Op::TimeLock => rec.call(lib, g, op, &[&fx.pk, &sc, &fx.msg, b"round-7"]),
         Op::EgEncrypt | Op::EgEncryptProof => rec.call(lib, g, op, &[&fx.pk, &fx.sk]),
+        Op::EgEncryptProofBlinder => {
+            let blinder = rec.call(lib, g, Op::KeyFromHash, &[b"the caller's blinder"]).first().map(|b| b.to_vec()).unwrap_or_default();
+            rec.call(lib, g, op, &[&fx.pk, &fx.sk, &blinder])
+        }
         Op::PokCommit | Op::PokTsGenerate => rec.call(lib, g, op, &[&fx.msg, &fx.sig]),
         _ => return Err("not a randomized entry point".into()),
     };
@@ -93,6 +100,15 @@ pub fn call_once(rec: &mut Rec, lib: &dyn Lib, g: Grp, op: Op, fx: &Fixture) -> 
             let bp = refimpl::scalar_from_be(&p[1]).ok_or_else(bad)?;
             let r1 = c1.mul(&(-ch)).add(&c1.gen_like().mul(&bp));
             vec![("c1", f.c1), ("proof-commitment-r1", r1.to_bytes())]
+        }
+        Op::EgEncryptProofBlinder => {
+            let f = ElGamalFields::parse(&v[0], pl).ok_or_else(bad)?;
+            let p = f.proof.clone().ok_or_else(bad)?;
+            let c1 = Pt::from_bytes(&f.c1).ok_or_else(bad)?;
+            let ch = refimpl::scalar_from_be(&p[2]).ok_or_else(bad)?;
+            let bp = refimpl::scalar_from_be(&p[1]).ok_or_else(bad)?;
+            let r1 = c1.mul(&(-ch)).add(&c1.gen_like().mul(&bp));
+            vec![("proof-commitment-r1", r1.to_bytes()), ("blinder-proof", p[1].clone())]
         }
         Op::PokCommit => {
             let u = v[0][1..].to_vec();
